@@ -225,6 +225,14 @@ def _fallback(ctx, f):
             if not ok_am:
                 why_am += (": the maximum is not taken over the accepted "
                            "counts alone")
+    enum_form = M[1] in ("builtins.max", "builtins.min") and \
+        len(M[2]) == 1 and M[2][0][0] == "call" and \
+        M[2][0][1] == "builtins.enumerate"
+    if not ok_am and not enum_form:
+        raise AnalysisError(
+            f"{f.qual}: the arg-max over the per-model counts is written in "
+            f"a form the rule does not read ({show(M, 100)}); rule C07a "
+            "needs re-reading")
     ctx.check(ok_am, "C07a-argmax-of-counts", f,
               "the winning record is the arg-max of the accepted counts "
               "(feat_pass of every fold model)", why_am,
